@@ -129,6 +129,23 @@ func parseTxos(s string) []txo {
 
 // ---------------------------------------------------------------- exec (real code)
 
+// exact returns a copy whose capacity equals its length (reads past the end fault).
+func exact(b []byte) []byte {
+	c := make([]byte, len(b))
+	copy(c, b)
+	return c[:len(b):len(b)]
+}
+
+// scribble overwrites a decoder's input after the fact: a decoded value must not alias it.
+func scribble(b []byte) {
+	for i := range b {
+		b[i] ^= 0xff
+	}
+}
+
+// otherTxo is encoded right after the value under test: an encoder's result must be a value of its own.
+var otherTxo = txo{amount: 123456789, script: bytes.Repeat([]byte{0xab}, 40), height: 777777, cb: true}
+
 func (P) Exec(line string) string {
 	f := strings.Fields(line)
 	if len(f) < 2 || f[0] != "C15" {
@@ -167,11 +184,17 @@ func (P) Exec(line string) string {
 		buf, k := blockchain.VerifPutCompressedTxOut(u64(f[2]), s)
 		return fmt.Sprintf("%s %d %d", hexTok(buf), k, blockchain.VerifCompressedTxOutSize(u64(f[2]), s))
 	case "untxo":
-		a, s, n, err := blockchain.VerifDecodeCompressedTxOut(unhex(f[2]))
+		in := exact(unhex(f[2]))
+		a, s, n, err := blockchain.VerifDecodeCompressedTxOutRaw(in)
 		if err != nil {
 			return "err"
 		}
-		return fmt.Sprintf("ok %d %s %d", a, hexTok(s), n)
+		out := fmt.Sprintf("ok %d %s %d", a, hexTok(s), n)
+		scribble(in)
+		if fmt.Sprintf("ok %d %s %d", a, hexTok(s), n) != out {
+			return "aliased"
+		}
+		return out
 	case "utxo":
 		t := parseTxo(f[2])
 		b, err := blockchain.VerifSerializeUtxoEntry(int64(t.amount), t.script, t.height, t.cb, f[3] == "1")
@@ -181,32 +204,66 @@ func (P) Exec(line string) string {
 		if b == nil {
 			return "nil"
 		}
-		return fmt.Sprintf("%s %d", hexTok(b), len(b))
+		out := fmt.Sprintf("%s %d", hexTok(b), len(b))
+		blockchain.VerifSerializeUtxoEntry(int64(otherTxo.amount), otherTxo.script, otherTxo.height, otherTxo.cb, false)
+		if fmt.Sprintf("%s %d", hexTok(b), len(b)) != out {
+			return "aliased"
+		}
+		return out
 	case "unutxo":
-		e, err := blockchain.VerifDeserializeUtxoEntry(unhex(f[2]))
+		in := exact(unhex(f[2]))
+		e, err := blockchain.VerifDeserializeUtxoEntryRaw(in)
 		if err != nil {
 			return "err"
 		}
 		if e.IsSpent() {
 			return "bad-flags"
 		}
-		return "ok " + txo{uint64(e.Amount()), e.PkScript(), e.BlockHeight(), e.IsCoinBase()}.String()
+		out := "ok " + txo{uint64(e.Amount()), e.PkScript(), e.BlockHeight(), e.IsCoinBase()}.String()
+		scribble(in)
+		if "ok "+(txo{uint64(e.Amount()), e.PkScript(), e.BlockHeight(), e.IsCoinBase()}).String() != out {
+			return "aliased"
+		}
+		return out
 	case "stxo":
 		st := parseTxo(f[2]).stxo()
 		buf, k := blockchain.VerifPutSpentTxOut(&st)
-		return fmt.Sprintf("%s %d %d", hexTok(buf), k, blockchain.VerifSpentTxOutSerializeSize(&st))
+		out := fmt.Sprintf("%s %d %d", hexTok(buf), k, blockchain.VerifSpentTxOutSerializeSize(&st))
+		ot := otherTxo.stxo()
+		blockchain.VerifPutSpentTxOut(&ot)
+		if fmt.Sprintf("%s %d %d", hexTok(buf), k, blockchain.VerifSpentTxOutSerializeSize(&st)) != out {
+			return "aliased"
+		}
+		return out
 	case "unstxo":
-		st, n, err := blockchain.VerifDecodeSpentTxOut(unhex(f[2]))
+		in := exact(unhex(f[2]))
+		st, n, err := blockchain.VerifDecodeSpentTxOutRaw(in)
 		if err != nil {
 			return "err"
 		}
-		return fmt.Sprintf("ok %s %d", fromStxo(st), n)
+		out := fmt.Sprintf("ok %s %d", fromStxo(st), n)
+		scribble(in)
+		if fmt.Sprintf("ok %s %d", fromStxo(st), n) != out {
+			return "aliased"
+		}
+		return out
 	case "journal":
 		var l []blockchain.SpentTxOut
 		for _, t := range parseTxos(f[2]) {
 			l = append(l, t.stxo())
 		}
-		return hexTok(blockchain.VerifSerializeSpendJournalEntry(l))
+		ser := blockchain.VerifSerializeSpendJournalEntry(l)
+		out := hexTok(ser)
+		blockchain.VerifSerializeSpendJournalEntry([]blockchain.SpentTxOut{otherTxo.stxo(), otherTxo.stxo()})
+		for i := range l { // the input list belongs to the caller and must be left as it was
+			if fromStxo(l[i]).String() != parseTxos(f[2])[i].String() {
+				return "input-modified"
+			}
+		}
+		if hexTok(ser) != out {
+			return "aliased"
+		}
+		return out
 	case "unjournal":
 		var txns []*wire.MsgTx
 		if f[3] != "-" {
@@ -218,18 +275,30 @@ func (P) Exec(line string) string {
 				txns = append(txns, tx)
 			}
 		}
-		l, err := blockchain.VerifDeserializeSpendJournalEntry(unhex(f[2]), txns)
+		var in []byte
+		if raw := unhex(f[2]); len(raw) > 0 {
+			in = exact(raw)
+		}
+		l, err := blockchain.VerifDeserializeSpendJournalEntryRaw(in, txns)
 		if err != nil {
 			if _, ok := err.(blockchain.AssertError); ok {
 				return "assert"
 			}
 			return "err"
 		}
-		out := make([]txo, len(l))
-		for i := range l {
-			out[i] = fromStxo(l[i])
+		show := func() string {
+			out := make([]txo, len(l))
+			for i := range l {
+				out[i] = fromStxo(l[i])
+			}
+			return "ok " + showTxos(out)
 		}
-		return "ok " + showTxos(out)
+		out := show()
+		scribble(in)
+		if show() != out {
+			return "aliased"
+		}
+		return out
 	case "best":
 		var h chainhash.Hash
 		copy(h[:], unhex(f[2]))
@@ -237,7 +306,13 @@ func (P) Exec(line string) string {
 		if !ok {
 			panic("bad worksum")
 		}
-		return hex.EncodeToString(blockchain.VerifSerializeBestChainState(h, uint32(u64(f[3])), u64(f[4]), ws))
+		ser := blockchain.VerifSerializeBestChainState(h, uint32(u64(f[3])), u64(f[4]), ws)
+		out := hex.EncodeToString(ser)
+		blockchain.VerifSerializeBestChainState(chainhash.Hash{1, 2, 3}, 99, 12345, big.NewInt(0x7fffffffffff))
+		if hex.EncodeToString(ser) != out || ws.Text(16) != strings.TrimLeft(f[5], "0") && !(ws.Sign() == 0) {
+			return "aliased"
+		}
+		return out
 	case "unbest":
 		h, ht, tt, ws, err := blockchain.VerifDeserializeBestChainState(unhex(f[2]))
 		if err != nil {
